@@ -231,9 +231,14 @@ func init() {
 			}
 			nBad := int64(2000)
 			nNF := int64(len(c10NonFinite) * len(c10NonFiniteDocs))
-			return &fw.Plan{N: nSweep + nRand + nBad + nNF,
-				Subspaces: []string{fmt.Sprintf("all %d (built-in, arity<=3, argument-kind tuple) combinations", nSweep), fmt.Sprintf("%d arithmetic programs whose mathematical result is not a finite number", nNF)},
+			nNV := int64(len(c10NoValue))
+			return &fw.Plan{N: nSweep + nRand + nBad + nNF + nNV,
+				Subspaces: []string{fmt.Sprintf("all %d (built-in, arity<=3, argument-kind tuple) combinations", nSweep), fmt.Sprintf("%d arithmetic programs whose mathematical result is not a finite number", nNF), fmt.Sprintf("%d programs that denote no value", nNV)},
 				Run: func(i int64, r *fw.Rec) {
+					if i >= nSweep+nRand+nBad+nNF {
+						c10NoValueProbe(r, c10NoValue[i-nSweep-nRand-nBad-nNF])
+						return
+					}
 					if i >= nSweep+nRand+nBad {
 						j := i - nSweep - nRand - nBad
 						c10Run(r, evalCase{prog: c10NonFinite[j/int64(len(c10NonFiniteDocs))], doc: c10NonFiniteDocs[j%int64(len(c10NonFiniteDocs))], kind: "non-finite-probe", det: true})
@@ -306,6 +311,30 @@ func invalidUTF8(v interface{}) bool {
 		}
 	}
 	return false
+}
+
+// programs that denote no value (a missing member, a built-in applied to a
+// missing argument, an empty selection ...): Eval must report ErrUndefined,
+// not a null that appears from nowhere
+var c10NoValue = []string{`nothing`, `a.nothing`, `$lookup({"a":1},"b")`, `$lookup(a,"b")`, `$distinct(nothing)`, `$sum(nothing)`, `$max([])`, `$min([])`, `$average([])`, `$string(nothing)`,
+	`$uppercase(nothing)`, `$number(nothing)`, `$keys(nothing)`, `[][0]`, `[1,2][5]`, `{"a":1}.b`, `$filter(nothing, function($v){true})`, `nothing ~> $uppercase()`, `(1; nothing)`,
+	`true ? nothing : 1`, `false ? 1`, `function(){nothing}()`, `$map(nothing,$string)`, `$reduce(nothing, $append)`, `$spread(nothing)`, `$each(nothing, function($v){$v})`,
+	`$sift(nothing, function($v){true})`, `$merge(nothing)`, `$reverse(nothing)`, `$sort(nothing)`, `$lookup(nothing,"a")`, `$substring(nothing,1)`, `$abs(nothing)`, `$round(nothing)`,
+	`$power(nothing,2)`, `$fromMillis(nothing)`, `$toMillis(nothing)`, `$type(nothing)`, `$length(nothing)`, `$trim(nothing)`, `$split(nothing,",")`, `$join(nothing)`,
+	`$replace(nothing,"a","b")`, `$formatNumber(nothing,"0")`, `$base64encode(nothing)`, `$boolean(nothing)`, `$shuffle(nothing)`, `$single(nothing, function($v){true})`, `$append(nothing,nothing)`}
+
+func c10NoValueProbe(r *fw.Rec, prog string) {
+	doc := `{"a":{}}`
+	r.Begin(prog, doc)
+	r.Tag("no-value-probe")
+	r.Nontrivial(prog)
+	o := obs.Run(prog, decodeDoc(doc))
+	r.Outcome(o.Class())
+	if o.Kind != "undefined" {
+		r.Violation("no-value-not-reported-as-ErrUndefined", prog+" denotes no value but Eval returned "+o.String(), nil)
+		return
+	}
+	r.Held()
 }
 
 // fnAsEmpty replaces function values in normalised data by empty strings.
